@@ -348,16 +348,16 @@ fn try_into_between(expr: rq::Expr, ctx: &mut Context) -> Result<Option<sql_ast:
                     if a_l == b_l {
                         return Ok(Some(sql_ast::Expr::Between {
                             expr: Box::new(
-                                translate_operand(a_l, true, 0, Associativity::Both, ctx)?
+                                translate_operand(a_l, true, 7, Associativity::Both, ctx)?
                                     .into_ast(),
                             ),
                             negated: false,
                             low: Box::new(
-                                translate_operand(a_r, true, 0, Associativity::Both, ctx)?
+                                translate_operand(a_r, true, 7, Associativity::Both, ctx)?
                                     .into_ast(),
                             ),
                             high: Box::new(
-                                translate_operand(b_r, true, 0, Associativity::Both, ctx)?
+                                translate_operand(b_r, true, 7, Associativity::Both, ctx)?
                                     .into_ast(),
                             ),
                         }));
@@ -1007,6 +1007,9 @@ impl SQLExpression for sql_ast::Expr {
             sql_ast::Expr::Like { .. } | sql_ast::Expr::ILike { .. } => 7,
 
             sql_ast::Expr::IsNull(_) | sql_ast::Expr::IsNotNull(_) => 5,
+
+            // `x BETWEEN lo AND hi` is on the level of the equality operators
+            sql_ast::Expr::Between { .. } => 5,
 
             // all other items types bind stronger (function calls, literals, ...)
             _ => 20,
